@@ -20,9 +20,230 @@ pub struct Case {
     pub pick: u16,
     /// generator selection per group for restriction pairs
     pub sel: Vec<u8>,
+    /// the same partial derivatives through different driver functions / number types
+    #[serde(default)]
+    pub drv: Option<DrvAgree>,
+}
+
+#[derive(Clone, Debug, Serialize, Deserialize)]
+pub struct DrvAgree {
+    pub n: u8,
+    pub idx: (u8, u8, u8),
+    pub x: Vec<f64>,
+    pub raw: Vec<RawOp>,
+    pub dynamic: bool,
 }
 
 pub struct C04;
+
+/// The partial derivatives f, f_i, f_j, f_k, f_ij, f_ik, f_jk, f_ijk of one generated function R^n -> R
+/// obtained through every route the crate offers: third_partial_derivative_vec (HyperHyperDual seeded
+/// by the driver), a HyperHyperDual seeded by hand, triply nested Dual, Dual3 / third_derivative and
+/// Dual2 / second_derivative (all directions on one variable), HyperDual / second_partial_derivative,
+/// Dual2Vec / hessian, HyperDualVec / partial_hessian, DualVec / gradient (static and dynamic storage)
+/// and Dual / first_derivative. All routes must agree with each other within 2*32 u e and with the
+/// reference algebra.
+fn driver_agreement(d: &DrvAgree, st: &mut Stats) -> Verdict {
+    use nalgebra::{DVector, SVector};
+    use num_dual::*;
+    ndv_oracle::ring::set_unit(<f64 as Flt>::U);
+    let n = 1 + d.n as usize % 3;
+    let (i, j, k) = (d.idx.0 as usize % n, d.idx.1 as usize % n, d.idx.2 as usize % n);
+    let x: Vec<f64> = (0..n).map(|l| d.x[l % d.x.len()] + 0.125 * (l / d.x.len()) as f64).collect();
+    let (prog, _) = resolve(&x, &d.raw, 1);
+    let out = prog.outs[0];
+    // reference: three generator groups of size one, seeded like third_partial_derivative_vec
+    let m3 = |a: usize, b: usize, c: usize| crate::c05::mono(3, &[(0, a), (1, b), (2, c)]);
+    let mut seeds: Vec<Vec<Mono>> = vec![vec![]; n];
+    seeds[i].push(m3(1, 0, 0));
+    seeds[j].push(m3(0, 1, 0));
+    seeds[k].push(m3(0, 0, 1));
+    let (alg, rf) = match crate::c05::ref_eval(&prog, &[1, 1, 1], &x, &seeds, &[]) {
+        Some(r) => r,
+        None => return Verdict::Trivial("reference out of domain"),
+    };
+    if max_mag(&rf) > 1e250 {
+        return Verdict::Trivial("magnitude out of range of the float type");
+    }
+    let names = ["f", "f_i", "f_j", "f_k", "f_ij", "f_ik", "f_jk", "f_ijk"];
+    let monos = [m3(0, 0, 0), m3(1, 0, 0), m3(0, 1, 0), m3(0, 0, 1), m3(1, 1, 0), m3(1, 0, 1), m3(0, 1, 1), m3(1, 1, 1)];
+    let want: Vec<R> = monos.iter().map(|m| rf[out].c[alg.index(m)]).collect();
+    if want.iter().any(|r| !r.is_finite()) {
+        return Verdict::Trivial("reference out of domain");
+    }
+    let u = <f64 as Flt>::U;
+    let what = format!("f = {} at {:?}, (i, j, k) = ({i}, {j}, {k})", render(&prog), x);
+    // route 0: the driver
+    let f_hhd = |xs: &[HyperHyperDual64]| eval_lib::<HyperHyperDual64, f64>(&prog, xs)[out];
+    let t = third_partial_derivative_vec(f_hhd, &x, i, j, k);
+    let base = [t.0, t.1, t.2, t.3, t.4, t.5, t.6, t.7];
+    let mut routes = 0u64;
+    let mut cmp = |route: &str, got: &[(usize, f64)]| -> Option<Verdict> {
+        for (slot, v) in got {
+            let r = want[*slot];
+            let tol = 2.0 * K * u * r.e + <f64 as Flt>::FLOOR;
+            if !((v - base[*slot]).abs() <= tol) {
+                return Some(Verdict::Fail {
+                    sig: format!("C04/driver-routes/{}", route.split(' ').next().unwrap_or(route)),
+                    why: format!("{} = {:e} through {route} but {:e} through third_partial_derivative_vec (reference {:e}, tolerance {:e}); {what}", names[*slot], v, base[*slot], r.v, tol),
+                });
+            }
+        }
+        None
+    };
+    // the driver against the reference
+    for s in 0..8 {
+        let r = want[s];
+        if !((base[s] - r.v).abs() <= K * u * r.e + <f64 as Flt>::FLOOR) {
+            return Verdict::Fail {
+                sig: "C04/driver-routes/reference".into(),
+                why: format!("{} = {:e} through third_partial_derivative_vec but the reference value is {:e}; {what}", names[s], base[s], r.v),
+            };
+        }
+    }
+    macro_rules! route {
+        ($name:expr, $got:expr) => {
+            routes += 1;
+            if let Some(v) = cmp($name, &$got) {
+                return v;
+            }
+        };
+    }
+    // route 1: HyperHyperDual seeded by hand
+    {
+        let xs: Vec<HyperHyperDual64> = (0..n)
+            .map(|l| {
+                let mut v = HyperHyperDual64::from_re(x[l]);
+                if l == i {
+                    v.eps1 = 1.0;
+                }
+                if l == j {
+                    v.eps2 = 1.0;
+                }
+                if l == k {
+                    v.eps3 = 1.0;
+                }
+                v
+            })
+            .collect();
+        let r = f_hhd(&xs);
+        route!("HyperHyperDual seeded by hand", [(0, r.re), (1, r.eps1), (2, r.eps2), (3, r.eps3), (4, r.eps1eps2), (5, r.eps1eps3), (6, r.eps2eps3), (7, r.eps1eps2eps3)]);
+    }
+    // route 2: triply nested first-order numbers
+    {
+        type D3 = Dual<Dual<Dual64, f64>, f64>;
+        let b = |c: bool| if c { 1.0 } else { 0.0 };
+        let xs: Vec<D3> = (0..n).map(|l| Dual::new(Dual::new(Dual64::new(x[l], b(l == k)), Dual64::new(b(l == j), 0.0)), Dual::new(Dual64::new(b(l == i), 0.0), Dual64::new(0.0, 0.0)))).collect();
+        let r = eval_lib::<D3, f64>(&prog, &xs)[out];
+        route!("Dual<Dual<Dual64>> seeded by hand", [(0, r.re.re.re), (1, r.eps.re.re), (2, r.re.eps.re), (3, r.re.re.eps), (4, r.eps.eps.re), (5, r.eps.re.eps), (6, r.re.eps.eps), (7, r.eps.eps.eps)]);
+    }
+    // all directions on one variable: Dual3 / third_derivative, Dual2 / second_derivative
+    let with = |l: usize, v: f64| -> Vec<f64> {
+        let mut y = x.clone();
+        y[l] = v;
+        y
+    };
+    if i == j && j == k {
+        let r = third_derivative(
+            |t: Dual3_64| {
+                let xs: Vec<Dual3_64> = (0..n).map(|l| if l == i { t } else { Dual3_64::from_re(x[l]) }).collect();
+                eval_lib::<Dual3_64, f64>(&prog, &xs)[out]
+            },
+            x[i],
+        );
+        route!("third_derivative (Dual3)", [(0, r.0), (1, r.1), (4, r.2), (7, r.3)]);
+        st.class("routes: all three directions on one variable (Dual3 ~ HyperHyperDual ~ nested)");
+    }
+    // second order: pairs (a, b) of the three directions with their slots
+    for (a, b, sa, sb, sab) in [(i, j, 1usize, 2usize, 4usize), (i, k, 1, 3, 5), (j, k, 2, 3, 6)] {
+        if a == b {
+            let r = second_derivative(
+                |t: Dual2_64| {
+                    let xs: Vec<Dual2_64> = (0..n).map(|l| if l == a { t } else { Dual2_64::from_re(x[l]) }).collect();
+                    eval_lib::<Dual2_64, f64>(&prog, &xs)[out]
+                },
+                x[a],
+            );
+            route!("second_derivative (Dual2)", [(0, r.0), (sa, r.1), (sab, r.2)]);
+        } else {
+            let r = second_partial_derivative(
+                |s: HyperDual64, t: HyperDual64| {
+                    let xs: Vec<HyperDual64> = (0..n).map(|l| if l == a { s } else if l == b { t } else { HyperDual64::from_re(x[l]) }).collect();
+                    eval_lib::<HyperDual64, f64>(&prog, &xs)[out]
+                },
+                x[a],
+                x[b],
+            );
+            route!("second_partial_derivative (HyperDual)", [(0, r.0), (sa, r.1), (sb, r.2), (sab, r.3)]);
+            // partial_hessian with x = (x_a), y = (x_b)
+            let r = partial_hessian(
+                |s: SVector<HyperDualVec64<nalgebra::U1, nalgebra::U1>, 1>, t: SVector<HyperDualVec64<nalgebra::U1, nalgebra::U1>, 1>| {
+                    let xs: Vec<_> = (0..n).map(|l| if l == a { s[0].clone() } else if l == b { t[0].clone() } else { HyperDualVec64::from_re(x[l]) }).collect();
+                    eval_lib::<HyperDualVec64<nalgebra::U1, nalgebra::U1>, f64>(&prog, &xs)[out].clone()
+                },
+                SVector::<f64, 1>::from([x[a]]),
+                SVector::<f64, 1>::from([x[b]]),
+            );
+            route!("partial_hessian (HyperDualVec<1,1>)", [(0, r.0), (sa, r.1[0]), (sb, r.2[0]), (sab, r.3[(0, 0)])]);
+        }
+        // hessian over all variables
+        let (v, g, h) = if d.dynamic {
+            let r = hessian(|xs: DVector<Dual2Vec64<nalgebra::Dyn>>| eval_lib::<Dual2Vec64<nalgebra::Dyn>, f64>(&prog, xs.as_slice())[out].clone(), DVector::from_vec(x.clone()));
+            (r.0, r.1.as_slice().to_vec(), (0..n).map(|p| (0..n).map(|q| r.2[(p, q)]).collect::<Vec<_>>()).collect::<Vec<_>>())
+        } else {
+            macro_rules! hs {
+                ($n:literal) => {{
+                    let r = hessian(|xs: SVector<Dual2Vec64<nalgebra::Const<$n>>, $n>| eval_lib::<Dual2Vec64<nalgebra::Const<$n>>, f64>(&prog, xs.as_slice())[out].clone(), SVector::<f64, $n>::from_column_slice(&x));
+                    (r.0, r.1.as_slice().to_vec(), (0..n).map(|p| (0..n).map(|q| r.2[(p, q)]).collect::<Vec<_>>()).collect::<Vec<_>>())
+                }};
+            }
+            match n {
+                1 => hs!(1),
+                2 => hs!(2),
+                _ => hs!(3),
+            }
+        };
+        route!(if d.dynamic { "hessian (Dual2Vec dynamic)" } else { "hessian (Dual2Vec static)" }, [(0, v), (sa, g[a]), (sb, g[b]), (sab, h[a][b]), (sab, h[b][a])]);
+    }
+    // first order: gradient and first_derivative
+    {
+        let (v, g) = if d.dynamic {
+            let r = gradient(|xs: DVector<DualVec64<nalgebra::Dyn>>| eval_lib::<DualVec64<nalgebra::Dyn>, f64>(&prog, xs.as_slice())[out].clone(), DVector::from_vec(x.clone()));
+            (r.0, r.1.as_slice().to_vec())
+        } else {
+            macro_rules! gr {
+                ($n:literal) => {{
+                    let r = gradient(|xs: SVector<DualVec64<nalgebra::Const<$n>>, $n>| eval_lib::<DualVec64<nalgebra::Const<$n>>, f64>(&prog, xs.as_slice())[out].clone(), SVector::<f64, $n>::from_column_slice(&x));
+                    (r.0, r.1.as_slice().to_vec())
+                }};
+            }
+            match n {
+                1 => gr!(1),
+                2 => gr!(2),
+                _ => gr!(3),
+            }
+        };
+        route!(if d.dynamic { "gradient (DualVec dynamic)" } else { "gradient (DualVec static)" }, [(0, v), (1, g[i]), (2, g[j]), (3, g[k])]);
+        for (a, sa) in [(i, 1usize), (j, 2), (k, 3)] {
+            let r = first_derivative(
+                |t: Dual64| {
+                    let xs: Vec<Dual64> = with(a, 0.0).iter().enumerate().map(|(l, v)| if l == a { t } else { Dual64::from_re(*v) }).collect();
+                    eval_lib::<Dual64, f64>(&prog, &xs)[out]
+                },
+                x[a],
+            );
+            route!("first_derivative (Dual)", [(0, r.0), (sa, r.1)]);
+        }
+    }
+    st.count("driver_routes_compared", routes);
+    st.class("relation:driver routes");
+    st.class(&format!("driver routes: index pattern {}", if i == j && j == k { "(v,v,v)" } else if i == j || j == k || i == k { "two equal" } else { "all distinct" }));
+    let nontrivial = want[7].v != 0.0 || want[4].v != 0.0;
+    if nontrivial && st.wants_sample() {
+        st.sample(|| json!({"relation": "driver routes", "function": render(&prog), "point": x, "indices": [i, j, k], "partials": base, "routes": routes}));
+    }
+    Verdict::Pass { nontrivial }
+}
 
 struct VLayout;
 impl TyVisitor for VLayout {
@@ -101,7 +322,7 @@ fn project(lay: &Layout, jet: &Jet, map: &dyn Fn(&Mono) -> Mono) -> Option<Flat>
 fn check_pair(case: &Case, st: &mut Stats) -> Verdict {
     let pc = &case.prog;
     let a = pc.ty;
-    let dims_a = [pc.dims.0 as usize, pc.dims.1 as usize];
+    let dims_a = [pc.dims.0 as usize % 7, pc.dims.1 as usize % 7];
     let cands = candidates(a, &dims_a);
     if cands.is_empty() {
         return Verdict::Trivial("no partner type exposes the same derivatives");
@@ -272,9 +493,23 @@ impl Property for C04 {
     type Case = Case;
     const ID: &'static str = "C04";
     fn strategy(tier: Tier) -> BoxedStrategy<Case> {
-        (c03::case_strategy(if tier == Tier::Quick { 8 } else { 20 }), any::<u16>(), proptest::collection::vec(any::<u8>(), 8)).prop_map(|(prog, pick, sel)| Case { prog, pick, sel }).boxed()
+        let max_nodes = if tier == Tier::Quick { 8 } else { 20 };
+        let pair = (c03::case_strategy(max_nodes), any::<u16>(), proptest::collection::vec(any::<u8>(), 8)).prop_map(|(prog, pick, sel)| Case { prog, pick, sel, drv: None });
+        let drv = (any::<u8>(), (any::<u8>(), any::<u8>(), any::<u8>()), proptest::collection::vec(c03::input_real(), 3), proptest::collection::vec(c03::raw_op(), 1..=max_nodes), any::<bool>()).prop_map(|(n, idx, x, raw, dynamic)| Case {
+            prog: c03::Case { ty: 0, dims: (1, 1), x: vec![1.0], raw: vec![], parts: vec![vec![0.0]], pres: vec![vec![true]], zero: vec![false], wide: 0, wu: 0.0 },
+            pick: 0,
+            sel: vec![0],
+            drv: Some(DrvAgree { n, idx, x, raw, dynamic }),
+        });
+        prop_oneof![9 => pair, 1 => drv].boxed()
     }
     fn check(case: &Case, st: &mut Stats) -> Verdict {
+        if let Some(d) = &case.drv {
+            if d.x.is_empty() || d.raw.is_empty() || d.x.iter().any(|x| !x.is_finite() || x.abs() > 1e3) || d.raw.iter().any(|r| !r.k.is_finite() || r.k.abs() > 1.0) {
+                return Verdict::Trivial("malformed case");
+            }
+            return driver_agreement(d, st);
+        }
         if c03::malformed(&case.prog) || case.sel.is_empty() {
             return Verdict::Trivial("malformed case");
         }
@@ -290,7 +525,7 @@ impl Property for C04 {
                 st.passes += 1;
                 st.count("nderiv_checked_types", 1);
             } else {
-                let dummy = Case { prog: c03::Case { ty: t, dims: (2, 3), x: vec![1.0], raw: vec![], parts: vec![vec![0.0]], pres: vec![vec![true]], zero: vec![false] }, pick: 0, sel: vec![0] };
+                let dummy = Case { prog: c03::Case { ty: t, dims: (2, 3), x: vec![1.0], raw: vec![], parts: vec![vec![0.0]], pres: vec![vec![true]], zero: vec![false], wide: 0, wu: 0.0 }, pick: 0, sel: vec![0], drv: None };
                 fails.push((dummy, "C04/NDERIV".to_string(), format!("{}: NDERIV = {} but the sum over its levels is {}", TYPES[t].name, nderiv, lay.groups.len())));
             }
         }
@@ -303,7 +538,7 @@ impl Property for C04 {
         }
     }
     fn rule() -> String {
-        "pure differential oracle between library types: a generated program (as C03) is evaluated on a type A and on a partner B chosen among ALL registered types that expose the same derivatives: (i) same reference algebra (e.g. Dual3 ~ Dual<Dual<Dual>> ~ Dual<Dual2> ~ Dual2<Dual> ~ HyperHyperDual; Dual2 ~ HyperDual ~ Dual<Dual>; Dual2Vec<N> ~ HyperDualVec<N,N>; static ~ dynamic storage for every N; f32 ~ f64), inputs generated for A and mapped through the embedding table (or symmetric-by-degree when neither side contains the other), (ii) vector type vs scalar type restricted to one direction per generator group (DualVec[i] ~ Dual, Dual2Vec[i,j] / HyperDualVec[i,j] ~ HyperDual / Dual2 / Dual<Dual>). Every shared part of every node must agree within 2*32 u e (e from the reference run; u of the narrower float), and each side with the reference. NDERIV of all 58 types equals the number of levels-summed orders (exhaustive). Non-trivial: the pair differs in Rust type and the compared part has order >= 2, or the pair differs in storage / width.".into()
+        "pure differential oracle between library types: a generated program (as C03) is evaluated on a type A and on a partner B chosen among ALL registered types that expose the same derivatives: (i) same reference algebra (e.g. Dual3 ~ Dual<Dual<Dual>> ~ Dual<Dual2> ~ Dual2<Dual> ~ HyperHyperDual; Dual2 ~ HyperDual ~ Dual<Dual>; Dual2Vec<N> ~ HyperDualVec<N,N>; static ~ dynamic storage for every N; f32 ~ f64), inputs generated for A and mapped through the embedding table (or symmetric-by-degree when neither side contains the other), (ii) vector type vs scalar type restricted to one direction per generator group (DualVec[i] ~ Dual, Dual2Vec[i,j] / HyperDualVec[i,j] ~ HyperDual / Dual2 / Dual<Dual>). Every shared part of every node must agree within 2*32 u e (e from the reference run; u of the narrower float), and each side with the reference. One case in ten instead obtains the eight partial derivatives f .. f_ijk of a generated function R^n -> R (n <= 3, generated index triple incl. repeated indices) through EVERY route the crate offers - third_partial_derivative_vec, hand-seeded HyperHyperDual, triply nested Dual, third_derivative (Dual3) and second_derivative (Dual2) when the directions coincide, second_partial_derivative (HyperDual), partial_hessian (HyperDualVec), hessian (Dual2Vec, static and dynamic), gradient (DualVec, static and dynamic), first_derivative (Dual) - and demands pairwise agreement within 2*32 u e and agreement with the reference. NDERIV of all 58 types equals the number of levels-summed orders (exhaustive). Non-trivial: the pair differs in Rust type and the compared part has order >= 2, or the pair differs in storage / width.".into()
     }
     fn assumptions() -> Vec<String> {
         vec!["dimensions 0..6, nesting depth <= 3".into()]
